@@ -132,6 +132,7 @@ func mainAlphabet(thorough bool) []drive.Event {
 		drive.Abandon(insOps("a", M{"k": "9", "x": "u"})...),
 		drive.Persist(),
 		drive.Reopen(),
+		req("create", "c", "k,p", ix('k', "k"), ix('i', "p", "c", "k")), // self-referencing: relinked by its own pass on open
 	}
 	if thorough {
 		evs = append(evs,
